@@ -24,7 +24,7 @@ func smugBody(n int) []byte {
 func init() {
 	Register(&Prop{
 		ID: "C02",
-		Rule: "pipelines of 1..4 requests (HTTP/1.1, or HTTP/1.0 with keep-alive) whose bodies (Content-Length, chunked, or chunked with a malformed chunk terminator; sizes around 0, the 8 KiB prefetch and MaxRequestBodySize) consist of well-formed 'GET /smuggled' requests, " +
+		Rule: "pipelines of 1..4 requests (HTTP/1.1, or HTTP/1.0 with keep-alive) whose bodies (Content-Length, chunked, chunked with a malformed chunk terminator, or chunked with an unacceptable trailer section; sizes around 0, the 8 KiB prefetch and MaxRequestBodySize) consist of well-formed 'GET /smuggled' requests, " +
 			"handlers reading none / k / all of the body (streaming on and off), taking it through Request.Body(), dropping it with ResetBody / SetBody, going back to it after EOF (another Read, PostArgs, Body), resetting or rewriting the framing fields of the request header, and ending normally, with an error status, or through TimeoutError / TimeoutErrorWithResponse, Expect: 100-continue accepted or rejected by ContinueHandler or ExpectHandler, random arrival chunking and heads delivered in reads of their own, followed by a sentinel request; " +
 			"monitor: every final response answers a dispatched request or is the one legitimate refusal, and the dispatched targets are a prefix of the planned ones (a body byte parsed as a request shows up as /smuggled or as garbage); non-trivial = some request carries a body; distinct = distinct input",
 		Parallel: true,
@@ -58,7 +58,7 @@ func init() {
 				bodies = append(bodies, body)
 				// may the server answer THIS request with an error response instead of dispatching it?
 				rejectable = append(rejectable, (f[4] == "1" && (cfg.Continue == "reject" || cfg.Continue == "expect417")) ||
-					(cfg.MaxBody > 0 && size > cfg.MaxBody) || f[2] == "chx" || f[4] == "1" || !(f[0] == "GET" || f[0] == "POST" || f[0] == "PUT"))
+					(cfg.MaxBody > 0 && size > cfg.MaxBody) || f[2] == "chx" || f[2] == "cht" || f[4] == "1" || !(f[0] == "GET" || f[0] == "POST" || f[0] == "PUT"))
 				if len(f) > 6 && f[6] == "10" && f[2] == "cl" {
 					// an HTTP/1.0 keep-alive request (it may carry an expectation all the same)
 					fmt.Fprintf(&stream, "%s %s HTTP/1.0\r\nHost: h\r\nConnection: keep-alive\r\n", f[0], uri)
@@ -97,7 +97,7 @@ func init() {
 				if size > 0 {
 					hasBody = true
 				}
-				if f[2] == "ch" || f[2] == "chx" {
+				if f[2] == "ch" || f[2] == "chx" || f[2] == "cht" {
 					stream.WriteString("Transfer-Encoding: chunked\r\n\r\n")
 					headEnds = append(headEnds, stream.Len())
 					rest := body
@@ -114,7 +114,14 @@ func init() {
 						first = false
 						rest = rest[n:]
 					}
-					stream.WriteString("0\r\n\r\n")
+					if f[2] == "cht" {
+						// a trailer section that cannot be accepted (forbidden / malformed field): the message is invalid, what
+						// follows the last chunk must never be served
+						stream.WriteString("0\r\n" + []string{"Content-Length: 5\r\n", "Bad Trailer Line\r\n", "Host: evil\r\n", "X-T: a\x00b\r\n"}[size%4] + "\r\n")
+						badAt = i - 1
+					} else {
+						stream.WriteString("0\r\n\r\n")
+					}
 					if f[2] == "chx" && size > 0 {
 						badAt = i - 1
 					}
@@ -210,6 +217,8 @@ func init() {
 						fr = "ch"
 						if r.Chance(12) {
 							fr = "chx"
+						} else if r.Chance(12) {
+							fr = "cht"
 						}
 					}
 					exp := "0"
